@@ -17,14 +17,21 @@ A = ('toy-new', {'x-one': '{length}|auto', 'x-two': 'a|b|{x-kw}', 'x-five': '{co
 B = ('toy-redef', {'color': 'ish|{int}', 'x-one': 'only'}, None)                                                 # redefines existing properties
 C = ('toy-shadow-token', {'x-three': '{length}|{x-kw2}'}, {'length': 'foo', 'x-kw2': 'k2'})                      # macro shadows the general macro 'length'
 D = ('toy-shadow-profile', {'x-four': '{x-kw}'}, {'x-kw': 'baz'})                                                # macro shadows toy-new's macro
-TOYS = {t[0]: t for t in (A, B, C, D)}
+# case twins: every pattern of F equals the corresponding pattern of E up to the LETTER CASE of an escape class (backslash-d / backslash-D, backslash-w / backslash-W directly,
+# backslash-s / backslash-S through a macro of the same name, so that the later registered twin also shadows the other one's macro)
+E = ('toy-esc-lower', {'x-six': r'\d+', 'x-eight': r'{ident}({x-sep}{ident})*', 'x-ten': r'\w+'}, {'x-sep': r'\s+'})
+F = ('toy-esc-upper', {'x-seven': r'\D+', 'x-nine': r'{ident}({x-sep}{ident})*', 'x-eleven': r'\W+'}, {'x-sep': r'\S+'})
+TOYS = {t[0]: t for t in (A, B, C, D, E, F)}
+NARROW = (A[0], B[0], C[0], D[0])  # the toys of the deep (length 4) enumeration of the thorough tier
 CSS2 = 'CSS Level 2.1'
 CSS3_COLOR = 'CSS Color Module Level 3'
 
 BATTERY = [('width', '1px'), ('width', 'foo'), ('width', 'auto'), ('color', 'red'), ('color', '7'), ('color', 'ish'), ('color', 'rgba(1,2,3,.5)'),
            ('opacity', '.5'), ('x-one', '1px'), ('x-one', 'foo'), ('x-one', 'auto'), ('x-one', 'only'), ('x-two', 'a'), ('x-two', 'foo'), ('x-two', 'bar'),
            ('x-two', 'baz'), ('x-three', 'foo'), ('x-three', '1px'), ('x-three', 'k2'), ('x-four', 'baz'), ('x-four', 'foo'), ('x-five', 'red'),
-           ('x-five', 'rgba(1,2,3,.5)'), ('nope', '1')]
+           ('x-five', 'rgba(1,2,3,.5)'), ('nope', '1'),
+           ('x-six', '12'), ('x-six', 'ab'), ('x-seven', '12'), ('x-seven', 'ab'), ('x-eight', 'a b'), ('x-eight', 'a,b'), ('x-eight', 'a'),
+           ('x-nine', 'a b'), ('x-nine', 'a,b'), ('x-nine', 'a'), ('x-ten', 'ab'), ('x-ten', '::'), ('x-eleven', 'ab'), ('x-eleven', '::')]
 
 
 def model(names):
@@ -32,11 +39,16 @@ def model(names):
     profile that defines the property accepts the value, every macro having the definition of the last registered profile that defines it"""
     reg = set(names)
     kw = None
+    sep = None  # 's': items separated by white space, 'S': by a run of non-space characters (last registered twin decides)
     for n in names:
         if n == A[0]:
             kw = {'foo', 'bar'}
         elif n == D[0]:
             kw = {'baz'}
+        elif n == E[0]:
+            sep = 's'
+        elif n == F[0]:
+            sep = 'S'
     length_foo = C[0] in reg
     css2 = CSS2 in reg
     css3c = CSS3_COLOR in reg
@@ -65,6 +77,16 @@ def model(names):
             ok = D[0] in reg and v in kw
         elif name == 'x-five':
             ok = A[0] in reg and colour(v)
+        elif name == 'x-six':
+            ok = E[0] in reg and v == '12'
+        elif name == 'x-seven':
+            ok = F[0] in reg and v == 'ab'
+        elif name in ('x-eight', 'x-nine'):
+            ok = (E[0] if name == 'x-eight' else F[0]) in reg and (v == 'a' or v == {'s': 'a b', 'S': 'a,b'}[sep])
+        elif name == 'x-ten':
+            ok = E[0] in reg and v == 'ab'
+        elif name == 'x-eleven':
+            ok = F[0] in reg and v == '::'
         else:
             ok = False
         out[(name, v)] = bool(ok)
@@ -72,14 +94,37 @@ def model(names):
 
 
 # ------------------------------------------------------------------------------------------------------------- operations
-def _ops(tier):
-    ops = [('add', n) for n in TOYS]
-    bulks = [(A[0], D[0]), (C[0], B[0]), (D[0], A[0])]
-    if tier != 'quick':
-        bulks += [(B[0], C[0], D[0])]
+def _ops(tier, family=None):
+    """operation alphabet of one family of histories.
+
+    quick tier, length <= 3 each:
+      core:  the four toys A-D, addProfiles with EVERY ordered pair of them (so: a profile shadowing a macro in force before / after one that brings
+             only new macro names, before / after one without macros, the two profiles defining the same macro in both orders);
+      twins: the case twins E, F and the token-macro shadower C (whose registration and removal re-expand everything), every ordered pair as a list.
+    thorough tier:
+      wide (length <= 3): all six toys, every ordered pair of them and three triples as lists - contains core and twins;
+      narrow (length <= 4): the four toys A-D with three pairs and one triple."""
+    if family is None:
+        family = 'core' if tier == 'quick' else 'wide'
+    dflt = [A[0]]
+    if family == 'narrow':
+        toys = list(NARROW)
+        bulks = [(A[0], D[0]), (C[0], B[0]), (D[0], A[0]), (B[0], C[0], D[0])]
+    elif family == 'core':
+        toys = list(NARROW)
+        bulks = list(itertools.permutations(toys, 2))
+    elif family == 'twins':
+        toys = [C[0], E[0], F[0]]
+        bulks = list(itertools.permutations(toys, 2))
+        dflt = [E[0]]
+    else:
+        toys = list(TOYS)
+        bulks = list(itertools.permutations(toys, 2)) + [(B[0], C[0], D[0]), (C[0], B[0], A[0]), (D[0], F[0], E[0])]
+        dflt = [A[0], E[0]]
+    ops = [('add', n) for n in toys]
     ops += [('bulk', b) for b in bulks]
-    ops += [('remove', n) for n in TOYS] + [('remove', 'toy-unknown'), ('remove', CSS3_COLOR), ('removeall', None)]
-    ops += [('default', (CSS2,)), ('default', (A[0],)), ('default', None)]
+    ops += [('remove', n) for n in toys] + [('remove', 'toy-unknown'), ('remove', CSS3_COLOR), ('removeall', None)]
+    ops += [('default', (CSS2,))] + [('default', (d,)) for d in dflt] + [('default', None)]
     return ops
 
 
@@ -360,9 +405,9 @@ def _walk(args):
     """DFS below a given prefix (replayed without checks except for its last node when check_prefix)"""
     import copy
     import cssutils
-    prefix, maxlen, tier, check_all_prefix = args
+    prefix, maxlen, tier, check_all_prefix, family = args
     cssutils.log.setLevel(logging.FATAL)
-    ops = _ops(tier)
+    ops = _ops(tier, family)
     out = []
     stats = {'nodes': 0, 'states': set(), 'skipped': 0}
     reg = _fresh()
@@ -470,19 +515,22 @@ def histories(ctx):
     import cssutils
     cssutils.log.setLevel(logging.FATAL)
     saved_global = (tuple(cssutils.profile.profiles), tuple(cssutils.profile.knownNames))
-    maxlen = 3 if ctx.tier == 'quick' else 4
-    ops = _ops(ctx.tier)
+    maxlen = 3
     start = _start_state()
     # tasks: every applicable prefix of length 2 (its last node is checked by the task), plus the length-1 prefixes checked alone
+    families = [('core', 3), ('twins', 3)] if ctx.tier == 'quick' else [('wide', 3), ('narrow', 4)]
     tasks = []
-    for op1 in ops:
-        if not applicable(op1, *start):
-            continue
-        tasks.append(((op1,), 1, ctx.tier, True))
-        s1 = next_state(op1, *start)
-        for op2 in ops:
-            if applicable(op2, *s1):
-                tasks.append(((op1, op2), maxlen, ctx.tier, False))
+    for family, flen in families:
+        ops = _ops(ctx.tier, family)
+        for op1 in ops:
+            if not applicable(op1, *start):
+                continue
+            if family != 'narrow':
+                tasks.append(((op1,), 1, ctx.tier, True, family))
+            s1 = next_state(op1, *start)
+            for op2 in ops:
+                if applicable(op2, *s1):
+                    tasks.append(((op1, op2), flen, ctx.tier, False, family))
     walks = [] if ctx.tier == 'quick' else [(ctx.seed * 1000 + i, 200, ctx.tier) for i in range(64)]
     with mp.get_context('fork').Pool(max(1, ctx.jobs)) as pool:
         results = pool.map(_walk, tasks, chunksize=1)
@@ -490,21 +538,40 @@ def histories(ctx):
     nodes = 0
     states = set()
     hits = {}
+    found = []
     for out, stats in results:
         nodes += stats['nodes']
         states |= stats['states']
-        for what, detail, inputs, kid in out:
-            if kid:
-                hits.setdefault(kid, detail)
-            ctx.violation(what, detail, True, inputs, known_id=kid)
+        found.extend(out)
+    found.sort(key=lambda o: len((o[2] or {}).get('history', ())))  # shortest histories first: the reported witnesses are minimal ones
+    for what, detail, inputs, kid in found:
+        if kid:
+            hits.setdefault(kid, detail)
+        ctx.violation(what, detail, True, inputs, known_id=kid)
     for kid in sorted(hits):
         ctx.known_finding(kid, True)
     if (tuple(cssutils.profile.profiles), tuple(cssutils.profile.knownNames)) != saved_global:
         ctx.violation('bounded: the check leaves the global cssutils.profile alone', 'cssutils.profile changed during the run', True, None)
+    fam = {f: _ops(ctx.tier, f) for f, _ in families}
+    desc = {'core': 'the four toy profiles A-D (new properties + own macro; redefinition of existing properties; macro shadowing the token macro length; macro shadowing '
+                    "another toy's macro)",
+            'twins': 'the token-macro shadower C and the case twins E, F (patterns equal up to the letter case of an escape class: d/D and w/W directly, s/S through a macro of the same name)',
+            'wide': 'all six toy profiles (A-D and the case twins E, F whose patterns are equal up to the letter case of an escape class: d/D, w/W, s/S through a macro)',
+            'narrow': 'the four toy profiles A-D'}
+    parts = []
+    for f, flen in families:
+        nb = [o[1] for o in fam[f] if o[0] == 'bulk']
+        what = 'every ordered pair of its toys' if f in ('core', 'twins') else ('every ordered pair of the toys and 3 triples' if f == 'wide' else '3 pairs and 1 triple')
+        parts.append(f'{f}: all applicable sequences of length <= {flen} over {len(fam[f])} operations on {desc[f]}: addProfile of each, addProfiles x {len(nb)} lists ({what}), '
+                     f'removeProfile of each / an unknown name / the built-in CSS3 Color profile, removeProfile(all=True), defaultProfiles = CSS 2.1 / a toy / None')
+    walks_txt = '' if ctx.tier == 'quick' else '; 64 seeded random walks of 200 operations over the wide alphabet'
     ctx.bounded.append({'name': 'registry histories', 'evaluations': nodes * (2 * len(BATTERY) + 5), 'distinct_nontrivial': len(states), 'exhaustive': True,
-                        'rule': f'all applicable sequences of length <= {maxlen} over {len(ops)} operations (addProfile x 4 toy profiles, addProfiles x {sum(1 for o in ops if o[0] == "bulk")} '
-                                'lists, removeProfile of each toy / an unknown name / the built-in CSS3 Color profile, removeProfile(all=True), defaultProfiles = CSS 2.1 / a toy / None) '
-                                f'on a fresh Profiles(); {nodes} nodes, after each: {len(BATTERY)} battery pairs through validate and validateWithProfile against a hand model and a '
-                                'directly built registry, knownNames, profiles, propertiesByProfile(); distinct = (ordered registered profiles, defaultProfiles) states reached',
-                        'samples': [{'history': ['addProfile(toy-shadow-token)', 'removeProfile(all=True)', 'addProfile(toy-new)']}],
-                        'bound': ('' if ctx.tier == 'quick' else '64 seeded random walks of 200 operations; ') + f'all histories of <= {maxlen} operations; inapplicable operations (re-adding a registered name, defaults naming an unregistered profile) are not taken'})
+                        'rule': '; '.join(parts) + walks_txt + f'; each on a fresh Profiles(); {nodes} nodes, after each: {len(BATTERY)} battery pairs through validate and '
+                                'validateWithProfile against a hand model and a directly built registry, knownNames, profiles, propertiesByProfile(); distinct = (ordered registered '
+                                'profiles, defaultProfiles) states reached',
+                        'samples': [{'history': ['addProfile(toy-shadow-token)', 'removeProfile(all=True)', 'addProfile(toy-new)']},
+                                    {'history': ['addProfiles([toy-shadow-token, toy-new])']},
+                                    {'history': ['addProfile(toy-esc-lower)', "removeProfile('toy-esc-lower')", 'addProfile(toy-esc-upper)']}],
+                        'bound': ', '.join(f'{f}: histories of <= {flen} operations over {len(fam[f])} operations' for f, flen in families) + walks_txt +
+                                 '; six toy profiles and a fixed battery; addProfiles lists of 2 (thorough: up to 3) profiles; inapplicable operations (re-adding a registered name, '
+                                 'defaults naming an unregistered profile) are not taken'})
